@@ -7,7 +7,7 @@ use crate::{generic_static_asserts, wrapping_pow2, BitArray};
 
 use super::{
     super::{DecoderModel, EncoderModel, EntropyModel},
-    all_finite_and_nonnegative,
+    all_finite_and_nonnegative, scaled_cumulative,
 };
 
 /// Type alias for a typical [`LazyContiguousCategoricalEntropyModel`].
@@ -184,6 +184,16 @@ where
         self.pmf.as_ref().len()
     }
 
+    /// The total weight that is distributed proportionally to the provided probabilities
+    /// (the remaining weight ensures that every symbol has a nonzero probability).
+    #[inline(always)]
+    fn free_weight(&self) -> Probability
+    where
+        usize: AsPrimitive<Probability>,
+    {
+        wrapping_pow2::<Probability>(PRECISION).wrapping_sub(&self.pmf.as_ref().len().as_())
+    }
+
     /// Makes a very cheap shallow copy of the model that can be used much like a shared
     /// reference.
     ///
@@ -243,7 +253,9 @@ where
         // SAFETY: when we initialized `probability_float`, we checked if `symbol` is out of bounds.
         let left_side = unsafe { pmf.get_unchecked(..symbol) };
         let left_cumulative_float = left_side.iter().copied().sum::<F>();
-        let left_cumulative = (left_cumulative_float * self.scale).as_() + symbol.as_();
+        let free_weight = self.free_weight();
+        let left_cumulative =
+            scaled_cumulative(left_cumulative_float, self.scale, free_weight) + symbol.as_();
 
         // It may seem easier to calculate `probability` directly from `probability_float` but
         // this could pick up different rounding errors, breaking guarantees of `EncoderModel`.
@@ -253,7 +265,9 @@ where
             // lead to an inaccessible last quantile due to rounding errors.
             wrapping_pow2(PRECISION)
         } else {
-            (right_cumulative_float * self.scale).as_() + symbol.as_() + Probability::one()
+            scaled_cumulative(right_cumulative_float, self.scale, free_weight)
+                + symbol.as_()
+                + Probability::one()
         };
         let probability = right_cumulative
             .wrapping_sub(&left_cumulative)
@@ -306,11 +320,14 @@ where
 
         // Then search for the correct `symbol` using the same float-to-int conversions as in
         // `EncoderModel::left_cumulative_and_probability`.
-        let mut left_cumulative =
-            (left_cumulative_float * self.scale).as_() + next_symbol.wrapping_sub(1).as_();
+        let free_weight = self.free_weight();
+        let mut left_cumulative = scaled_cumulative(left_cumulative_float, self.scale, free_weight)
+            + next_symbol.wrapping_sub(1).as_();
 
         for &next_probability in &mut iter {
-            let right_cumulative = (right_cumulative_float * self.scale).as_() + next_symbol.as_();
+            let right_cumulative =
+                scaled_cumulative(right_cumulative_float, self.scale, free_weight)
+                    + next_symbol.as_();
             if right_cumulative > quantile {
                 let probability = right_cumulative
                     .wrapping_sub(&left_cumulative)
